@@ -378,7 +378,7 @@ def check_c06(tier):
             (dict(kinds=KINDS, zst=[True], lens=[0, 1, 2, 3] if th else [0, 2], spare=[1], maxlen=4, maxids=10, maxops=1,
                   inject=True, ops=ops + ["early_close"]), None, None),
             (dict(kinds=KINDS, zst=[False, True], lens=[0, 1, 2, 3], spare=[0, 2], maxlen=4, maxids=14, maxops=5 if th else 4,
-                  inject=True, ops=ops, keymodes=("pair", "same", "alt")), 40000 if th else 2400, 16),
+                  inject=True, ops=ops, keymodes=("pair", "same", "alt")), 40000 if th else 1200, 16),
         ] + ([(dict(kinds=[k], zst=[False], lens=[2], spare=[1], maxlen=3, maxids=9, maxops=2, inject=True,
                     ops=ops + ["early_close"]), None, None) for k in KINDS] if th else []),
         "replay_mode": "shapes" if th else "rotate",
@@ -406,7 +406,7 @@ def check_c08(tier):
             (dict(kinds=KINDS, zst=[True], lens=[0, 1, 2, 3] if th else [0, 2], spare=[0, 1], maxlen=4, maxids=10, maxops=1,
                   inject=False, ops=ALL_OPS + ["early_close"]), None, None),
             (dict(kinds=KINDS, zst=[False, True], lens=[0, 1, 2, 3], spare=[0, 2], maxlen=4, maxids=16, maxops=6 if th else 5,
-                  inject=False, ops=ALL_OPS, keymodes=("pair", "same", "alt")), 40000 if th else 3000, 18),
+                  inject=False, ops=ALL_OPS, keymodes=("pair", "same", "alt")), 40000 if th else 1500, 18),
         ] + ([(dict(kinds=[k], zst=[False], lens=[1, 3], spare=[1], maxlen=4, maxids=10, maxops=2, inject=False,
                     ops=ALL_OPS + ["early_close"]), None, None) for k in KINDS] if th else []),
         "replay_mode": "shapes" if th else "rotate",
@@ -451,7 +451,7 @@ def check_c16(tier):
                   maxlen=4, maxids=10, maxops=2, inject=False,
                   ops=splits + ["push", "pop", "truncate", "remove", "reserve", "shrink", "convert"]), None, None),
             (dict(kinds=KINDS, zst=[False, True], lens=[0, 2, 4], spare=[0, 2], maxlen=4, maxids=16, maxops=6 if th else 5,
-                  inject=False, ops=SPLIT_OPS, keymodes=("pair", "alt")), 40000 if th else 3000, 18),
+                  inject=False, ops=SPLIT_OPS, keymodes=("pair", "alt")), 40000 if th else 1500, 18),
         ],
         "replay_mode": "shapes" if th else "rotate",
         "extra": _arena_half,
